@@ -576,9 +576,38 @@ def gen_inner_registration_cases():
     return lines
 
 
+def gen_late_limit_cases():
+    """the instruction limit can be set (and lowered) at any time: after k executed instructions the limit becomes
+    smaller than, equal to or larger than k, then stepping continues.  Deterministic."""
+    lines, n = [], 0
+    prog = "48ffc0" * 3 + "90" * 3 + "48ffc3" * 2        # inc rax x3, nop x3, inc rbx x2
+    for k_steps in (0, 1, 2, 3, 5):
+        for lim in (0, 1, 2, 3, 4, 100):
+            lines.append("case latelimit%d" % n)
+            n += 1
+            lines.append("new %s 1000 1000" % prog)
+            lines.append("allregs " + " ".join("%x" % (0x10 * q) for q in range(16)))
+            lines.append("allxmm " + " ".join("0" for _ in range(16)))
+            lines.append("flags 0")
+            for _ in range(k_steps):
+                lines.append("step")
+            lines.append("maxinstr %x" % lim)
+            lines.append("step")
+            lines.append("step")
+            lines.append("dump")
+            lines.append("maxinstr %x" % (lim + 2))
+            lines.append("exec 5")
+            lines.append("dump")
+            lines.append("end")
+    return lines
+
+
 def _exec_prop(prop_id, tier, seed):
     n = 700 if tier == "quick" else 30000
     lines, hist = gen_exec_histories(seed + (0 if prop_id == "C11" else 5), n)
+    late = gen_late_limit_cases()
+    lines = lines + late
+    hist["limit-changed-after-steps"] = sum(1 for l in late if l.startswith("case "))
     if prop_id == "C12":
         extra = gen_inner_registration_cases()
         lines = lines + extra
@@ -1205,7 +1234,7 @@ def c19(tier, seed, **kw):
     # (trace, call stack and state rendering) - programs of C18 and C11 stepped to their end
     lcf, _ = gen_cf_programs(seed + 190, 300 if tier == "quick" else 6000)
     lex, _ = gen_exec_histories(seed + 191, 300 if tier == "quick" else 6000)
-    lines = lines + lcf + lex
+    lines = lines + lcf + lex + gen_late_limit_cases() + gen_inner_registration_cases()
     ncases, bad = tie_run(lines, "C19-fuzz")
     if bad:
         prof, cid, first = bad[0]
